@@ -101,6 +101,12 @@ def get_scoped_setup_inputs(
                     continue
                 # if it is effect free, we recurse on it's operands
                 vals_to_inspect.extend(val.owner.operands)
+                # and on the values that its regions take from their surroundings
+                for nested_op in val.owner.walk():
+                    if nested_op is not val.owner:
+                        vals_to_inspect.extend(
+                            operand for operand in nested_op.operands if not val.owner.is_ancestor(operand.owner)
+                        )
                 # and note the operation down as one that computes our input variables
                 inputs.append(val.owner)
             else:
